@@ -268,6 +268,21 @@ def attr_json(v):
     return 'unspec'
 
 
+def declared_schema(model):
+    """The fields of stone_cfg.Route in DECLARATION order (the order backends see in route_schema.fields)."""
+    try:
+        mm.get_ns(model, 'stone_cfg')
+    except KeyError:
+        return []
+    r = mm.find_def(model, 'stone_cfg', 'Route', (Struct,))
+    if r is None:
+        return []
+    out = []
+    for cns, cs in reversed(mm.struct_chain(model, 'stone_cfg', r[2])):
+        out.extend(mm.own_members(model, cns, cs))
+    return out
+
+
 def check_js_client(model, api, specs, trace, oc, out_v, all_opts=True):
     schema = refsem.schema_fields(model)
     routes = [(n, d) for n, fi, di, d in mm.all_defs(model) if isinstance(d, Route) and n != 'stone_cfg']
@@ -307,7 +322,7 @@ def check_js_client(model, api, specs, trace, oc, out_v, all_opts=True):
             url = '%s/%s%s' % (nsn, r.name, '_v%d' % r.version if r.version != 1 else '')
             has_arg = not (isinstance(r.arg, P) and r.arg.kind == 'Void')
             attrs = refsem.routesig(model, nsn, r, schema)['attrs']
-            expected[fname] = (url, has_arg, [attr_json(attrs.get(f.name)) for f in schema])
+            expected[fname] = (url, has_arg, [attr_json(attrs.get(f.name)) for f in declared_schema(model)])
         if sorted(expected) != rep['names']:
             oc['js-names-differ'] += 1
             out_v.append(viol('js_client-functions', 'js_client defines %r, the API has %r' % (rep['names'][:12], sorted(expected)[:12]), inputs))
